@@ -134,6 +134,15 @@ Theorem C06_install_converges_at_every_crash_point_partial :
 Proof. exact install_converges_at_every_crash_point. Qed.
 Print Assumptions C06_install_converges_at_every_crash_point_partial.
 
+(* the same when wal.Save finds the tail segment over its size while it saves the hard state behind the snapshot's
+   record: the cut flushes records and hard state into the old segment (the record is valid from there on) and starts a
+   new segment named after the snapshot's index; all crash points of that run, every crash image *)
+Theorem C06_install_with_cut_converges_at_every_crash_point_partial :
+  forallb (fun n => forallb (fun j => forallb (fun extra => install_cut_crash_check n j extra) (seq 0 3)) (seq 0 3))
+          (seq 0 (S (length (ev_install_cut 6 9 (ev_fetch 9))))) = true.
+Proof. exact install_cut_converges_at_every_crash_point. Qed.
+Print Assumptions C06_install_with_cut_converges_at_every_crash_point_partial.
+
 (* the installation goes through: from a node whose loops are idle, for every Ready with a snapshot that the raft
    library may hand out in that state (ready_ok: the snapshot is ahead of the local log, alone in its Ready), the
    sub-steps are enabled one after the other (checkpoint found on the local disk or fetched, snap file, WAL record,
